@@ -149,6 +149,96 @@ theorem wf_perm_equivariant (g : List α) (σ : Equiv.Perm (Fin g.length))
     rw [e1, hw.form]
     simp
 
+/-! ### robustness facts (follow-up R5, R6) -/
+
+/-- R6, change of power unit: total power and noise variance both multiplied by `s > 0`
+    ⇒ the allocation and the level are multiplied by `s` (no absolute scale anywhere). -/
+theorem wf_scale_power_noise (g : List α) (asc asc' : List (Chan α)) (P N Es s : α)
+    (p p' : List α) (mu mu' : α)
+    (hc : SortContract g asc) (hc' : SortContract g asc') (hne : g ≠ []) (hg : ∀ x ∈ g, 0 < x)
+    (hP : 0 < P) (hN : 0 < N) (hEs : 0 < Es) (hs : 0 < s)
+    (hres : doWFWith asc g.length P N Es = .ok (p, mu))
+    (hres' : doWFWith asc' g.length (s * P) (s * N) Es = .ok (p', mu')) :
+    mu' = s * mu ∧ p' = p.map (fun y => s * y) := by
+  obtain ⟨q, nu, h, hw, _⟩ := doWFWith_isWaterFilling g asc P N Es hc hne hg hP.le hN hEs
+  rw [hres] at h; cases h
+  obtain ⟨q', nu', h', hw', _⟩ := doWFWith_isWaterFilling g asc' (s * P) (s * N) Es hc' hne hg
+    (mul_pos hs hP).le (mul_pos hs hN) hEs
+  rw [hres'] at h'; cases h'
+  obtain ⟨e1, e2⟩ := hw'.unique (hw.scale_power_noise hs) (mul_pos hs hP)
+  exact ⟨e2, e1⟩
+
+/-- R6: gains and noise variance multiplied by the same `s > 0` ⇒ same allocation, same level. -/
+theorem wf_scale_gain_noise (g : List α) (asc asc' : List (Chan α)) (P N Es s : α)
+    (p p' : List α) (mu mu' : α)
+    (hc : SortContract g asc) (hc' : SortContract (g.map (fun x => s * x)) asc')
+    (hne : g ≠ []) (hg : ∀ x ∈ g, 0 < x)
+    (hP : 0 < P) (hN : 0 < N) (hEs : 0 < Es) (hs : 0 < s)
+    (hres : doWFWith asc g.length P N Es = .ok (p, mu))
+    (hres' : doWFWith asc' (g.map (fun x => s * x)).length P (s * N) Es = .ok (p', mu')) :
+    mu' = mu ∧ p' = p := by
+  obtain ⟨q, nu, h, hw, _⟩ := doWFWith_isWaterFilling g asc P N Es hc hne hg hP.le hN hEs
+  rw [hres] at h; cases h
+  have hne' : g.map (fun x => s * x) ≠ [] := by simpa using hne
+  have hg' : ∀ x ∈ g.map (fun x => s * x), 0 < x := by
+    intro x hx
+    obtain ⟨y, hy, rfl⟩ := List.mem_map.mp hx
+    exact mul_pos hs (hg y hy)
+  obtain ⟨q', nu', h', hw', _⟩ := doWFWith_isWaterFilling _ asc' P (s * N) Es hc' hne' hg'
+    hP.le (mul_pos hs hN) hEs
+  rw [hres'] at h'; cases h'
+  obtain ⟨e1, e2⟩ := hw'.unique (hw.scale_gain_noise hs) hP
+  exact ⟨e2, e1⟩
+
+/-- R6: gains divided and symbol energy multiplied by the same `s > 0` ⇒ same result. -/
+theorem wf_scale_gain_energy (g : List α) (asc asc' : List (Chan α)) (P N Es s : α)
+    (p p' : List α) (mu mu' : α)
+    (hc : SortContract g asc) (hc' : SortContract (g.map (fun x => x / s)) asc')
+    (hne : g ≠ []) (hg : ∀ x ∈ g, 0 < x)
+    (hP : 0 < P) (hN : 0 < N) (hEs : 0 < Es) (hs : 0 < s)
+    (hres : doWFWith asc g.length P N Es = .ok (p, mu))
+    (hres' : doWFWith asc' (g.map (fun x => x / s)).length P N (s * Es) = .ok (p', mu')) :
+    mu' = mu ∧ p' = p := by
+  obtain ⟨q, nu, h, hw, _⟩ := doWFWith_isWaterFilling g asc P N Es hc hne hg hP.le hN hEs
+  rw [hres] at h; cases h
+  have hne' : g.map (fun x => x / s) ≠ [] := by simpa using hne
+  have hg' : ∀ x ∈ g.map (fun x => x / s), 0 < x := by
+    intro x hx
+    obtain ⟨y, hy, rfl⟩ := List.mem_map.mp hx
+    exact div_pos (hg y hy) hs
+  obtain ⟨q', nu', h', hw', _⟩ := doWFWith_isWaterFilling _ asc' P N (s * Es) hc' hne' hg'
+    hP.le hN (mul_pos hs hEs)
+  rw [hres'] at h'; cases h'
+  obtain ⟨e1, e2⟩ := hw'.unique (hw.scale_gain_energy hs) hP
+  exact ⟨e2, e1⟩
+
+/-- R5, boundary `P = 0` (outside the quantifier, accepted by the code): a value is
+    returned and every channel gets exactly zero power. -/
+theorem wf_zero_power (g : List α) (asc : List (Chan α)) (N Es : α)
+    (hc : SortContract g asc) (hne : g ≠ []) (hg : ∀ x ∈ g, 0 < x) (hN : 0 < N) (hEs : 0 < Es) :
+    ∃ p mu, doWFWith asc g.length 0 N Es = .ok (p, mu) ∧ p.length = g.length ∧ ∀ y ∈ p, y = 0 := by
+  obtain ⟨p, mu, h, hw, _⟩ := doWFWith_isWaterFilling g asc 0 N Es hc hne hg le_rfl hN hEs
+  exact ⟨p, mu, h, hw.length,
+    fun y hy => List.all_zero_of_le_zero_le_of_sum_eq_zero hw.nonneg hw.sum hy⟩
+
+omit [IsStrictOrderedRing α] in
+/-- R5, a single channel (`K = 1`): it gets the whole power and the level is
+    `P + N/(Es·g)`, for every `P ≥ 0`. -/
+theorem wf_single_channel (g0 P N Es : α) (hP : 0 ≤ P) :
+    doWFWith [((g0, 0) : Chan α)] 1 P N Es = .ok ([P], P + N / (Es * g0)) := by
+  have h : ¬ P < 0 := not_lt.mpr hP
+  simp [doWFWith, dropLoop, excess, level, scatter, scatterAt, List.lookup, h]
+
+omit [IsStrictOrderedRing α] in
+/-- The model is a function of the *logical* input only (R1/R2/R3/R4/R7 on the model side):
+    a list of values in, a fresh value out, no state — so the same values delivered in any
+    dtype, memory layout or call order give the same result, and a rejected call (`.error`)
+    leaves nothing behind.  Stated as: equal inputs give equal outputs, errors included. -/
+theorem wf_function_of_values (g g' : List α) (P P' N N' Es Es' : α)
+    (hg : g = g') (hP : P = P') (hN : N = N') (hEs : Es = Es') :
+    doWF g P N Es = doWF g' P' N' Es' := by
+  subst hg hP hN hEs; rfl
+
 /-- The model's own sort (the one the compiled driver runs) is an admissible `argsort`
     result, so every theorem above applies to `doWF g P N Es`. -/
 theorem wf_model_sort_admissible (g : List α) :
